@@ -1,11 +1,15 @@
 CFG = dict(
-    lean_modules=["SaramaVerif.Model.IdemBroker", "SaramaVerif.Model.Producer", "SaramaVerif.Props.C01", "SaramaVerif.Props.C05", "SaramaVerif.Props.C05stamps"],
+    lean_modules=["SaramaVerif.Model.IdemBroker", "SaramaVerif.Model.Producer", "SaramaVerif.Props.C01", "SaramaVerif.Props.C05", "SaramaVerif.Props.C05stamps",
+                  "SaramaVerif.Model.BrokerProd", "SaramaVerif.Model.BrokerProdIdem", "SaramaVerif.Props.C05bp"],
     lean_support=["SaramaVerif.Driver.ProducerTrace"],
     model="C05",
     overlay=["sim", "c05"],
     required_theorems=["Props.C05stamps.stamps_never_repeat", "Props.C05stamps.stamps_dense", "Props.C05stamps.step_sinv", "Props.C05.arrive_inv", "Props.C05.arriveAll_inv", "Props.C05.no_two_records_share_stamp",
                        "Props.C05.no_duplicate_append", "Props.C05.resend_is_deduplicated",
-                       "Props.C05.sequence_assigned_once", "Props.C05.sequence_only_on_first_forward"],
+                       "Props.C05.sequence_assigned_once", "Props.C05.sequence_only_on_first_forward",
+                       "Props.C05bp.bpI_at_most_one_set_in_flight", "Props.C05bp.bpI_conservation", "Props.C05bp.bpI_only_data_buffered",
+                       "Props.C05bp.bpI_quiet_while_refused", "Props.C05bp.bpI_empty_set_needs_stale", "Props.C05bp.stepIE_bal",
+                       "Props.C05bp.stepIE_inv", "Props.C05bp.stepIE_quiet"],
     n={"quick": 700, "thorough": 12000, "search": 1500},
     thorough_seeds=3,
     timeout={"quick": 600, "thorough": 3000},
